@@ -27,7 +27,8 @@ Structural == {"sig_no_signedinfo", "sig_two_signedinfo", "sig_no_value", "sig_e
 Inputs == [entry : Entries, class : Free, base : {"sso"}, pos : {0}] \cup
           [entry : Entries, class : Positional, base : Bases, pos : 0..Positions] \cup
           [entry : Entries, class : Structural, base : {"sso", "ssoenc"}, pos : {0}]
-Cfgs == [sp : {"normal", "bare"}]
+\* "maxlimit" / "neglimit": a normal provider whose MaximumDecompressedBodySize is the largest int64 / negative
+Cfgs == [sp : {"normal", "bare", "maxlimit", "neglimit"}]
 
 \* no prediction of accept/reject is made here: the property is totality
 ModelOut(cfg, in) == [res |-> "any"]
